@@ -826,6 +826,18 @@ def _make_record(r, fam):
             a = int(r.integers(1, n - 6))
             b = a + int(r.integers(2, 5))
             order[a:b] = order[a:b][::-1].copy()
+        if r.random() < 0.5 and n > 20:
+            # a sample or a block delivered late / early by several positions: one
+            # negative step only, far from where the displaced data belongs
+            order = order.tolist()
+            a = int(r.integers(1, n - 12))
+            blk = int(r.integers(1, 4))
+            shift = int(r.integers(3, 9))
+            moved = order[a:a + blk]
+            del order[a:a + blk]
+            pos = a + shift if r.random() < 0.5 else max(1, a - shift)
+            order[pos:pos] = moved
+            order = np.array(order)
     return {"t": t[order], "y": y[order], "ids": ids[order], "planted": planted[order],
             "sr": sr, "dyadic": bool(dyadic and fam not in ("jitter",)), "dropval": dropval}
 
